@@ -2,22 +2,14 @@ package c06
 
 import (
 	"bytes"
-	"errors"
 	"fmt"
 	"strings"
 	"testing"
 
-	"github.com/taurusgroup/multi-party-sig/internal/round"
-	"github.com/taurusgroup/multi-party-sig/pkg/party"
-	"github.com/taurusgroup/multi-party-sig/pkg/protocol"
-	"github.com/taurusgroup/multi-party-sig/verifharness/adv"
-	"github.com/taurusgroup/multi-party-sig/verifharness/advrun"
+	"github.com/taurusgroup/multi-party-sig/verifharness/equiv"
 	"github.com/taurusgroup/multi-party-sig/verifharness/ev"
-	"github.com/taurusgroup/multi-party-sig/verifharness/fix"
 	"github.com/taurusgroup/multi-party-sig/verifharness/pbt"
 	"github.com/taurusgroup/multi-party-sig/verifharness/proto"
-	"github.com/taurusgroup/multi-party-sig/verifharness/sim"
-	"github.com/taurusgroup/multi-party-sig/verifharness/tape"
 	"pgregory.net/rapid"
 )
 
@@ -25,180 +17,20 @@ func TestMain(m *testing.M)   { pbt.Main(m) }
 func TestReplay(t *testing.T) { pbt.Replay(t) }
 func TestCorpus(t *testing.T) { pbt.Corpus(t) }
 
-// Case: one equivocating participant (two individually valid twins sharing their randomness up to the
-// round in which they fork) and a partition of the honest parties into the audiences of the two twins.
-type Case struct {
-	Proto   string
-	Pattern string // toy
-	Honest  int    // number of honest parties (>= 3 recommended; >= 2 required)
-	Cheater int    // position of the equivocator in the sorted party list
-	Round   int    // the broadcast round in which the twins start to differ
-	Split   int    // bit i set: honest party i listens to twin B
-	Seed    uint64
-	Sched   []int
-}
-
-func build(c Case) (*proto.Session, error) {
-	n := c.Honest + 1
-	if c.Proto == proto.Toy {
-		ids := fix.SortedIDs(fix.IDs("letters", n, 0))
-		return &proto.Session{Proto: proto.Toy, Pattern: c.Pattern, SessionID: []byte("c06"), IDs: ids}, nil
-	}
-	s, _, err := advrun.Build(advrun.Setup{Proto: c.Proto, N: n, T: n - 1, Seed: c.Seed})
-	return s, err
-}
-
-func install(c Case) (*tape.Mux, func()) {
-	mux := tape.Install(c.Seed)
-	un := func() {}
-	if c.Proto == proto.CMPKeygen || c.Proto == proto.CMPRefresh {
-		un = fix.InstallPrimeSourceByParty(mux, int(c.Seed%31))
-	}
-	return mux, func() { un(); mux.Uninstall() }
-}
-
-// offsets: how many bytes of its randomness the cheater had consumed when it started to finalize each round.
-var offCache = map[string]map[int]int64{}
-
-func offsets(c Case, cheater party.ID) (map[int]int64, error) {
-	key := fmt.Sprintf("%s/%s/%d/%d/%d", c.Proto, c.Pattern, c.Honest, c.Cheater, c.Seed)
-	if v, ok := offCache[key]; ok {
-		return v, nil
-	}
-	sess, err := build(c)
-	if err != nil {
-		return nil, err
-	}
-	mux, undo := install(c)
-	defer undo()
-	off := map[int]int64{}
-	sess.Wrap = func(id party.ID, f protocol.StartFunc) protocol.StartFunc {
-		if id != cheater {
-			return f
-		}
-		return adv.WrapStart(f, &adv.Hooks{Before: func(r round.Session) {
-			if _, ok := off[int(r.Number())]; !ok {
-				off[int(r.Number())] = mux.Pos(string(cheater))
-			}
-		}})
-	}
-	n := sim.New(mux)
-	if err := sess.AddAll(n); err != nil {
-		return nil, err
-	}
-	if err := n.Run(sim.FIFO, 100000); err != nil {
-		return nil, err
-	}
-	offCache[key] = off
-	return off, nil
-}
+type Case = equiv.Case
 
 var lastClass string
 
 func run(c Case) *pbt.Fail {
 	lastClass = "skipped"
-	sess, err := build(c)
-	if err != nil {
-		return pbt.Failf("harness-error", err.Error())
+	r, f := equiv.Run(c)
+	if f != nil {
+		return f
 	}
-	order := sess.Order()
-	cheater := order[c.Cheater%len(order)]
-	off, err := offsets(c, cheater)
-	if err != nil {
-		return failOf(err)
-	}
-	forkAt, ok := off[c.Round-1]
-	if !ok {
-		return nil // no such round
-	}
-	last := 0
-	for r := range off {
-		if r > last {
-			last = r
-		}
-	}
-	if c.Round >= last {
-		return nil // the statement is about broadcast rounds that are followed by a further round
-	}
-	var honest []party.ID
-	for _, id := range order {
-		if id != cheater {
-			honest = append(honest, id)
-		}
-	}
-	groupB := map[string]bool{}
-	groupA := map[string]bool{}
-	for i, id := range honest {
-		if c.Split>>uint(i)&1 == 1 {
-			groupB[string(id)] = true
-		} else {
-			groupA[string(id)] = true
-		}
-	}
-	if len(groupA) == 0 || len(groupB) == 0 {
+	if r.Skipped {
 		return nil
 	}
-	mux, undo := install(c)
-	defer undo()
-	nameA, nameB := string(cheater)+"#a", string(cheater)+"#b"
-	mux.Set(nameA, tape.NewStream(c.Seed, string(cheater), 0))
-	mux.Set(nameB, tape.NewForked(c.Seed, string(cheater), 0, forkAt, 1))
-	n := sim.New(mux)
-	for _, id := range order {
-		id := id
-		if id == cheater {
-			for _, nm := range []string{nameA, nameB} {
-				p, err := n.Add(nm, id, func() (protocol.Handler, error) { return sess.Handler(id) })
-				if err != nil {
-					return failOf(err)
-				}
-				if nm == nameA {
-					p.Audience = groupA
-				} else {
-					p.Audience = groupB
-				}
-			}
-			continue
-		}
-		if _, err := n.Add(string(id), id, func() (protocol.Handler, error) { return sess.Handler(id) }); err != nil {
-			return failOf(err)
-		}
-	}
-	n.Start()
-	if err := n.Run(sim.FromList(c.Sched), 200000); err != nil {
-		return failOf(err)
-	}
-	// did the twins really equivocate in round Round?
-	payload := func(name string) []byte {
-		for _, m := range n.Party(name).Sent {
-			if int(m.RoundNumber) == c.Round && m.Broadcast {
-				return m.Data
-			}
-		}
-		return nil
-	}
-	pa, pb := payload(nameA), payload(nameB)
-	differ := pa != nil && pb != nil && !bytes.Equal(pa, pb)
-	// earlier rounds must be identical (the fork is exactly at Round)
-	for _, m := range n.Party(nameA).Sent {
-		if int(m.RoundNumber) < c.Round && int(m.RoundNumber) > 0 {
-			for _, m2 := range n.Party(nameB).Sent {
-				if m2.RoundNumber == m.RoundNumber && m2.Broadcast == m.Broadcast && m2.To == m.To && !bytes.Equal(m.Data, m2.Data) {
-					return pbt.Failf("inconclusive:fork-too-early", fmt.Sprintf("twins already differ in round %d (fork requested at %d): randomness consumption is not schedule independent here", m.RoundNumber, c.Round))
-				}
-			}
-		}
-	}
-	var finA, finB []string
-	for _, id := range honest {
-		if n.Party(string(id)).Outcome().Finished {
-			if groupB[string(id)] {
-				finB = append(finB, string(id))
-			} else {
-				finA = append(finA, string(id))
-			}
-		}
-	}
+	n, finA, finB, groupA, groupB, differ, cheater := r.Net, r.FinA, r.FinB, r.GroupA, r.GroupB, r.Differ, r.Cheater
 	lastClass = fmt.Sprintf("r=%d|differ=%v|A=%d/%d|B=%d/%d", c.Round, differ, len(finA), len(groupA), len(finB), len(groupB))
 	if !differ {
 		return nil
@@ -233,67 +65,19 @@ func run(c Case) *pbt.Fail {
 	return nil
 }
 
-func failOf(err error) *pbt.Fail {
-	var pe *sim.PanicError
-	if errors.As(err, &pe) {
-		return pbt.Failf("panic:"+ev.PanicSite(pe.Stack), pe.Error()+"\n"+pe.Stack)
-	}
-	var he *sim.HangError
-	if errors.As(err, &he) || strings.Contains(err.Error(), "step timeout") {
-		return pbt.Failf("inconclusive:hang", err.Error())
-	}
-	return pbt.Failf("harness-error", err.Error())
-}
-
 var prop = pbt.Define(pbt.Prop[Case]{Kind: "equivocation", Run: run, Journal: true, Class: func(c Case) (string, bool) {
 	return fmt.Sprintf("%s%s|honest=%d|cheater=%d|%s", c.Proto, c.Pattern, c.Honest, c.Cheater, lastClass), strings.Contains(lastClass, "differ=true")
 }})
 
-func gen(t *rapid.T, protos []string, maxHonest int) Case {
-	c := Case{Proto: rapid.SampledFrom(protos).Draw(t, "proto")}
-	c.Honest = rapid.IntRange(2, maxHonest).Draw(t, "honest")
-	if rapid.IntRange(0, 3).Draw(t, "atLeast3") != 0 && c.Honest < 3 {
-		c.Honest = 3
-	}
-	if c.Proto == proto.Toy {
-		c.Pattern = rapid.StringMatching("[bx][bpx]{1,3}").Draw(t, "pattern")
-	}
-	c.Cheater = rapid.IntRange(0, c.Honest).Draw(t, "cheater")
-	c.Round = rapid.IntRange(2, 7).Draw(t, "round")
-	// steer towards rounds that exist and are followed by another round (the run itself re-checks)
-	switch {
-	case c.Proto == proto.Toy:
-		var rs []int
-		for i, ch := range c.Pattern[:len(c.Pattern)-1] {
-			if ch != 'p' {
-				rs = append(rs, i+2)
-			}
-		}
-		if len(rs) > 0 {
-			c.Round = rs[c.Round%len(rs)]
-		}
-	case strings.HasPrefix(c.Proto, "frost-"):
-		c.Round = 2
-	case c.Proto == proto.CMPKeygen || c.Proto == proto.CMPRefresh || c.Proto == proto.CMPSign:
-		c.Round = 2 + c.Round%3
-	case c.Proto == proto.CMPPresign:
-		c.Round = 2 + c.Round%5
-	}
-	c.Split = rapid.IntRange(1, 1<<uint(c.Honest)-2).Draw(t, "split")
-	c.Seed = rapid.Uint64Range(1, 3).Draw(t, "seed")
-	c.Sched = rapid.SliceOfN(rapid.IntRange(0, 4095), 0, 60).Draw(t, "sched")
-	return c
-}
-
 func TestCheap(t *testing.T) {
 	rapid.Check(t, func(rt *rapid.T) {
-		prop.One(rt, gen(rt, []string{proto.Toy, proto.Toy, proto.FrostKeygen, proto.FrostKeygenTap, proto.FrostSign, proto.FrostSignTap, proto.FrostRefresh}, 4))
+		prop.One(rt, equiv.Gen(rt, []string{proto.Toy, proto.Toy, proto.FrostKeygen, proto.FrostKeygenTap, proto.FrostSign, proto.FrostSignTap, proto.FrostRefresh}, 4))
 	})
 }
 
 func TestCMP(t *testing.T) {
 	rapid.Check(t, func(rt *rapid.T) {
-		c := gen(rt, []string{proto.CMPSign, proto.CMPPresign, proto.CMPKeygen, proto.CMPSign}, 2)
+		c := equiv.Gen(rt, []string{proto.CMPSign, proto.CMPPresign, proto.CMPKeygen, proto.CMPSign}, 2)
 		if ev.Get().Thorough() && rapid.Bool().Draw(rt, "three") {
 			c.Honest = 3
 			c.Split = 1 + c.Split%6
